@@ -2,6 +2,7 @@
 C11 — A1 and row/column addressing reach the same cell in every call; bounds hold.
 -/
 import NumbersModel.Model.Addressing
+import NumbersModel.Lemmas.TrAddr
 import NumbersModel.Props.C10
 import Mathlib.Tactic.Ring
 namespace NumbersModel.Props.C11
@@ -178,3 +179,39 @@ example : iterRows ⟨3, 2⟩ (some 1) (some 2) none (some 0) = .ok [[(1, 0)], [
 example : iterRows ⟨3, 2⟩ none (some 3) none none = .error .IndexError := by decide
 
 end NumbersModel.Props.C11
+
+/-! ## The iterator clauses over the bounds prefixes regenerated from the Python source
+
+`Gen/TrAddr.lean` is produced by `harness/py2lean.py` from `Table.iter_rows` / `Table.iter_cols` in `document.py`
+(the four "`None` means default" lines and the four bounds tests, everything before `rows = self.rows()`) on every
+check run; `Lemmas/TrAddr.lean` proves `iterRows` / `iterCols` equal to that prefix followed by the yield loop. -/
+namespace NumbersModel.Props.C11.Src
+open NumbersModel NumbersModel.Addressing NumbersModel.Gen.T NumbersModel.Translated
+
+/-- exactly the addressed rectangle, rows in order and columns in order inside each row; any bound outside the
+    table raises IndexError before anything is yielded. -/
+theorem src_iter_rows_exact (d : Dims) (minRow maxRow minCol maxCol : Int) :
+    (iter_rows_bounds d.rows d.cols (some minRow) (some maxRow) (some minCol) (some maxCol)).map rowsOf =
+      if 0 ≤ minRow ∧ maxRow < d.rows ∧ 0 ≤ minCol ∧ maxCol < d.cols
+      then .ok ((rangeIncl minRow maxRow).map (fun r => (rangeIncl minCol maxCol).map (fun c => (r, c))))
+      else .error .IndexError := by
+  rw [← iter_rows_eq_model]; exact C11.iter_rows_exact d minRow maxRow minCol maxCol
+
+theorem src_iter_cols_exact (d : Dims) (minRow maxRow minCol maxCol : Int) :
+    (iter_cols_bounds d.rows d.cols (some minCol) (some maxCol) (some minRow) (some maxRow)).map colsOf =
+      if 0 ≤ minRow ∧ maxRow < d.rows ∧ 0 ≤ minCol ∧ maxCol < d.cols
+      then .ok ((rangeIncl minCol maxCol).map (fun c => (rangeIncl minRow maxRow).map (fun r => (r, c))))
+      else .error .IndexError := by
+  rw [← iter_cols_eq_model]; exact C11.iter_cols_exact d minRow maxRow minCol maxCol
+
+/-- omitted bounds mean the whole axis, and an explicit 0 is 0, not "omitted". -/
+theorem src_iter_defaults (d : Dims) (a b c e : Option Int) :
+    iter_rows_bounds d.rows d.cols a b c e =
+      iter_rows_bounds d.rows d.cols (some (a.getD 0)) (some (b.getD ((d.rows : Int) - 1))) (some (c.getD 0))
+        (some (e.getD ((d.cols : Int) - 1))) := by
+  cases a <;> cases b <;> cases c <;> cases e <;> rfl
+
+example : (iter_rows_bounds 3 2 none (some 0) none none).map rowsOf = .ok [[(0, 0), (0, 1)]] := by decide
+example : iter_rows_bounds 3 2 none (some 3) none none = .error .IndexError := by decide
+
+end NumbersModel.Props.C11.Src
